@@ -13,6 +13,8 @@ QUERIES = [
     (["D", "d", "a", ["set", "X", "o", "r"]], "unknownns"),
     (["D", "d", "a", ["none"]], "nosubject"),
     (["D", "d", "viapar", ["id", "u"]], "valid"),
+    # a different tuple with the same canonical string n:o#r@s as the fourth one: a subject id that looks like a subject set
+    (["D", "d", "either", ["id", "G:g#m"]], "valid"),
 ]
 STATES = [[], [8], [2, 8], [1, 3, 4, 5, 6], [3, 5, 6, 9, 10], [1, 2, 3, 4, 5, 6, 7, 8, 9, 10], [3, 4, 8], [2, 3, 5, 6]]
 
